@@ -119,8 +119,13 @@ def trained_ruleset_case(pws=None):
     mw, _ = train_util.first_pass(pws)
     # (every password is segmented by a copy of the trained detector that has answered nothing yet)
     import pickle
-    pristine = pickle.dumps(mw)
-    tally = _Counter(lab for p_ in pws for _, lab in train_util.section_list_of(p_, pickle.loads(pristine)))
+    try:
+        pristine = pickle.dumps(mw)
+        fresh = lambda: pickle.loads(pristine)
+    except Exception:
+        # a detector that cannot be copied is trained again for every password (same list, same order: the same tables)
+        fresh = lambda: train_util.first_pass(pws)[0]
+    tally = _Counter(lab for p_ in pws for _, lab in train_util.section_list_of(p_, fresh()))
     tot = sum(tally.values())
     wantp = {lab: n / tot for lab, n in tally.items()}
     gotp = {ln.split('\t')[0]: float(ln.split('\t')[1]) for ln in open(os.path.join(rd, 'Prince', 'grammar.txt'), encoding='ascii').read().split('\n') if ln}
